@@ -92,6 +92,7 @@ func genC16Plan(seed uint64, tier string) *C16Plan {
 		p.Opts.WhereForms = pickSome(g, []string{"pk", "in", "between", "and", "or", "paren", "nonpk"}, 1)
 	}
 	p.Opts.Params = g.Prob(0.8)
+	p.Opts.UniqueIndex = g.Prob(0.2)
 	nt := g.Range(1, 2)
 	for i := 0; i < nt; i++ {
 		p.Tables = append(p.Tables, genTable(g, fmt.Sprintf("t_%c", 'a'+i), p.Opts))
@@ -184,6 +185,27 @@ func genC16Plan(seed uint64, tier string) *C16Plan {
 	}
 	if inTx {
 		p.Ops = append(p.Ops, C16Op{Op: simkit.Pick(g, []string{"commit", "rollback"})})
+	}
+	if p.Driver == "at" && g.Prob(0.05) {
+		// a batch job: statements that touch a whole block of rows (the image
+		// queries of the proxy work in chunks of 1000 keys)
+		p.Global = true
+		n := simkit.Pick(g, []int{999, 1000, 1000, 1001, 2000})
+		big := TableDef{Name: "t_big", Cols: []ColDef{{Name: "id", Type: "int"}, {Name: "grp", Type: "int"}, {Name: "v", Type: "int"}}, PK: []string{"id"}}
+		for i := 1; i <= n+3; i++ {
+			grp := int64(1)
+			if i > n {
+				grp = 2
+			}
+			big.Rows = append(big.Rows, []Val{VI(int64(i)), VI(grp), VI(0)})
+		}
+		p.Tables = append(p.Tables, big)
+		stmt := simkit.Pick(g, []string{"UPDATE t_big SET v = v + 1 WHERE grp = 1", "DELETE FROM t_big WHERE grp = 1", fmt.Sprintf("UPDATE t_big SET v = 7 WHERE grp = 1 ORDER BY id LIMIT %d", n)})
+		kind := "update"
+		if strings.HasPrefix(stmt, "DELETE") {
+			kind = "delete"
+		}
+		p.Ops = append([]C16Op{{Op: "exec", SQL: stmt, Kind: kind + "-block"}}, p.Ops...)
 	}
 	if p.Driver == "at" && !p.Global && g.Prob(0.3) {
 		p.Dedicated = g.Bool()
